@@ -773,7 +773,12 @@ func c19Run(spec json.RawMessage) CaseOut {
 	for i, st := range out.Steps {
 		reg := "None"
 		if i-off >= 0 {
-			reg = cqSome(cqPair(nt.ref(unq(sp.Regs[i-off].N)), cqDec(sp.Regs[i-off].D)))
+			dc := cqDec(sp.Regs[i-off].D)
+			if sp.Burst == 0 {
+				// the value as written (its string fields); Coq decides from them whether it is the zero value
+				dc = c19DecCoq(nt, sp.Regs[i-off].D)
+			}
+			reg = cqSome(cqPair(nt.ref(unq(sp.Regs[i-off].N)), dc))
 		}
 		var l []string
 		for _, n := range st.Listing {
